@@ -21,6 +21,9 @@ git -C $W apply $SD/patch.diff || { echo "PATCH DOES NOT APPLY"; exit 3; }
 if [ -f $SD/demo.py ]; then
   (cd $W && PYTHONPATH=$W timeout 600 /venv/bin/python $SD/demo.py >/tmp/mw/demo_after.txt 2>&1); echo "demo on changed:   exit=$? $(tail -1 /tmp/mw/demo_after.txt | cut -c1-120)"
 fi
+# as it will be used: MANIFEST.setup_cmd runs on the changed tree first (regenerates EVERY translator output from it and rebuilds),
+# so that no generated file left over from another tree can make a check fail or pass for the wrong reason
+(cd $V && git checkout -q coq/Gen 2>/dev/null; EON_REPO=$W timeout 3000 ./check setup > /tmp/mw/seed_setup_$(basename $SD).txt 2>&1); echo "setup on changed tree: $(tail -1 /tmp/mw/seed_setup_$(basename $SD).txt)"
 for c in "$@"; do
   out=/tmp/mw/seed_$(basename $SD)_$c.txt
   (cd $V && EON_REPO=$W timeout 1500 ./check $c --tier ${TIER:-quick} > $out 2>&1); rc=$?
